@@ -47,7 +47,9 @@ RULE = ("cases: (a) every sequence of <=3 modifications over {rewrite same size,
         "an 8-letter alphabet.  non-trivial = a request carries validators of an earlier full response, or '*'")
 TRUSTED = ["virtual clock: os.stat replaced in the worker for the target file (float fields as CPython's fill_time: sec + 1e-9*nsec)",
            "harness-side translation Last-Modified text <-> second (email.utils), ETag table taken from the implementation's "
-           "own generate_etag for every file state of the case"]
+           "own generate_etag for every file state of the case",
+           "source-level tie for BaseFiles.if_none_match: tools/py2coq.py (Python ast -> Gallina, fail-closed) and "
+           "coq/theories/Lib/PyStr.v (str methods as Gallina functions; compared with the interpreter's str methods on every run)"]
 ASSUMPTIONS = ["SHA-1 hex digests: 40 hex digits, no collision between different (float mtime, size) texts",
                "float timestamps: >= 1 s apart in nanoseconds => different floats and int() at least one apart; int(float) monotone",
                "every modification sets ctime to the current clock value and mtime to it or to an earlier time; the clock never runs "
@@ -756,6 +758,21 @@ def shrink(case):
     used = sorted({o[2] for o in ops if o[0] == 3})
     if len(used) < len(case[6]):
         yield case[:6] + [[case[6][k] for k in used], [([3, o[1], used.index(o[2])] if o[0] == 3 else o) for o in ops]]
+
+
+# ---------------------------------------------------------------- the source-level tie (tools/py2coq.py)
+
+
+def extra_obligations(tier):
+    """BaseFiles.if_none_match is translated to Gallina from the source in BAIZE_REPO as it is now, and coqc re-checks
+    C14/Translated.v (translated function = C14.Model.if_none_match, for all texts) against the fresh definition; the
+    PyStr functions the translation is made of are compared with the interpreter's own str methods (the PyStr case
+    stream is pystr_checks in tools/py2coq.py)."""
+    import importlib.util
+    spec = importlib.util.spec_from_file_location("py2coq", os.path.join(core.VERIF, "tools", "py2coq.py"))
+    py2coq = importlib.util.module_from_spec(spec)
+    spec.loader.exec_module(py2coq)
+    return py2coq.obligations(PID, core.REPO, core.VERIF)
 
 
 if __name__ == "__main__":
